@@ -12,10 +12,15 @@ MARK = "x"
 YMARK = "y"
 
 
-def concretize(prog):
-    """Abstract nest -> (root source, partial templates, data)."""
+def concretize(prog, same=False, helper=False):
+    """Abstract nest -> (root source, partial templates, data).  same: every loop uses the SAME variable name and loops of equal length
+    iterate the same array, so that nested loops share their textual name (`v-b3`): the accounting must not depend on names."""
     templates = {}
     data = {f"a{i}": list(range(1, c["n"] + 1)) for i, c in enumerate(prog)}
+    var = (lambda i: "v") if same else (lambda i: f"v{i}")
+    arr_of = (lambda i: f"b{prog[i]['n']}") if same else (lambda i: f"a{i}")
+    if same:
+        data.update({f"b{c['n']}": list(range(1, c["n"] + 1)) for c in prog})
 
     def leaf(i, c):
         """the sibling of level i: a repeating construct whose body is the mark y"""
@@ -35,13 +40,15 @@ def concretize(prog):
             return MARK
         k = prog[i]["k"]
         inner = leaf(i, prog[i]) + build(i + 1)
+        if helper and k in ("for", "tablerow"):
+            inner = f"{{% assign h{i} = {'forloop' if k == 'for' else 'tablerowloop'} %}}" + inner
         if k == "for":
-            return f"{{% for v{i} in a{i} %}}{inner}{{% endfor %}}"
+            return f"{{% for {var(i)} in {arr_of(i)} %}}{inner}{{% endfor %}}"
         if k == "tablerow":
-            return f"{{% tablerow v{i} in a{i} %}}{inner}{{% endtablerow %}}"
+            return f"{{% tablerow {var(i)} in {arr_of(i)} %}}{inner}{{% endtablerow %}}"
         if k in ("incfor", "renderfor", "render", "include"):
             templates[f"p{i}"] = inner
-            return {"incfor": f"{{% include 'p{i}' for a{i} %}}", "renderfor": f"{{% render 'p{i}' for a{i} %}}",
+            return {"incfor": f"{{% include 'p{i}' for {arr_of(i)} %}}", "renderfor": f"{{% render 'p{i}' for {arr_of(i)} %}}",
                     "render": f"{{% render 'p{i}' %}}", "include": f"{{% include 'p{i}' %}}"}[k]
         if k == "call":
             return f"{{% macro m{i} %}}{inner}{{% endmacro %}}{{% call m{i} %}}"
@@ -51,7 +58,7 @@ def concretize(prog):
 
 
 def replay_one(case):
-    src, templates, data = concretize(case["prog"])
+    src, templates, data = concretize(case["prog"], same=bool(case.get("same")))
     env = harness.make_env(loop_limit=case["N"], templates=templates)
     res = []
     for how in ("sync", "async"):
@@ -103,6 +110,8 @@ def run(tier: str) -> int:
             cases = rnd.sample(cases, 400000)
     elif len(cases) > 50000:
         cases = rnd.sample(cases, 50000)
+    for i, c in enumerate(cases):
+        c["same"] = i % 2         # every second nest: one loop variable name, equal lengths share their array
     results = par.pmap(replay_one, cases)
     for case, res in zip(cases, results):
         for how, obs in res:
@@ -117,7 +126,7 @@ def run(tier: str) -> int:
             elif exp_status == "ok" and obs["ybodies"] != case.get("ybodies", 0):
                 bad = f"{obs['ybodies']} sibling block executions, LoopNest.tla requires {case.get('ybodies', 0)}"
             if bad:
-                src, templates, data = concretize(case["prog"])
+                src, templates, data = concretize(case["prog"], same=bool(case.get("same")))
                 ck.fail(bad, {"case": case, "mode": how, "observed": obs, "source": src, "partials": templates, "data": data},
                         sig=signature(case, obs))
     for c in cases[:: max(1, len(cases) // 4)][:4]:
